@@ -96,3 +96,19 @@ Fixpoint mon_prune_fold (step : nat) (blocks outs : list val) (maxobs : N) : lis
   | _, _ => []
   end.
 Definition mon_C08_prune (c impl : val) : val := VL (mon_prune_fold 0 (vL (vnth 1 c)) (vL impl) 0%N).
+
+(* C09/nonce on the same observations: the latest nonce never decreases, and every stored set carries its own nonce once *)
+Definition k_c09_prune_nonce : val := VB (map Z.to_N [67;48;57;47;110;111;110;99;101]).
+Fixpoint mon_c09_prune_fold (step : nat) (outs : list val) (prev_latest : N) : list val :=
+  match outs with
+  | [] => []
+  | o :: outs' =>
+      let st := vnth 1 o in
+      let latest := vN (vnth 0 st) in
+      let stored := map (fun x => vN (vnth 0 x)) (vL (vnth 1 st)) in
+      (if N.ltb latest prev_latest then [VL [k_c09_prune_nonce; VI (Z.of_nat step); vNat prev_latest; vNat latest]] else [])
+      ++ (if forallb (fun n => Nat.eqb (length (filter (N.eqb n) stored)) 1 && N.leb n latest) stored then []
+          else [VL [k_c09_prune_nonce; VI (Z.of_nat step); VL (map vNat stored); vNat latest]])
+      ++ mon_c09_prune_fold (S step) outs' latest
+  end.
+Definition mon_C09_prune (c impl : val) : val := VL (mon_c09_prune_fold 0 (vL impl) 0%N).
